@@ -147,7 +147,8 @@ func runC15(c *Ctx) {
 				}
 				foundProbe = true
 				// next == extract#1(strings.Cut(d, "."))
-				okNext := next.Op == "extract" && next.Aux == "1" && next.Args[0].Op == "call" && next.Args[0].Aux == "strings.Cut" && next.Args[0].Args[0] == d && isStr(next.Args[0].Args[1], ".")
+				wantNext := u.LibCall("strings.Cut", nil, d, u.Str(".")).Args[1]
+				okNext, _ := semEqual(u, next, wantNext)
 				cont := contCond(u, s, l)
 				okCont := cont == u.bdd.Not(u.ToBool(u.Eq(d, u.Str(""))))
 				// lookup byHostname[d] in every iteration
